@@ -42,13 +42,15 @@ func init() {
 		flags := num(e["flags"])
 		backing := make([]byte, len(prefix), len(prefix)+spare)
 		copy(backing, prefix)
-		caller := backing[:len(prefix):len(prefix)+spare] // the caller's own view of its bytes
-		var call, other func(buf []byte) ([]byte, error) // other: the same formatter on a different value
+		caller := backing[: len(prefix) : len(prefix)+spare] // the caller's own view of its bytes
+		var call, other func(buf []byte) ([]byte, error)     // other: the same formatter on a different value
 		switch str(e["pkg"]) {
 		case "date":
 			v := mkDate(e["val"])
 			call = func(buf []byte) ([]byte, error) { return date.DefaultFormatter(buf, v, date.Format(flags)) }
-			other = func(buf []byte) ([]byte, error) { return date.DefaultFormatter(buf, v.Add(1, 1, 1), date.Format(flags)) }
+			other = func(buf []byte) ([]byte, error) {
+				return date.DefaultFormatter(buf, v.Add(1, 1, 1), date.Format(flags))
+			}
 		case "roman":
 			v := roman.Number(num(e["val"]))
 			call = func(buf []byte) ([]byte, error) { return roman.DefaultFormatter(buf, v, roman.Format(flags)) }
